@@ -32,7 +32,10 @@ structure ListRequest where
   search : List (List Str)
   deriving Repr, DecidableEq
 
-/-- the response's array properties, in order (`field.Schema.(*j5schema.ArrayField)`) -/
+/-- the response's array properties, in order (`field.Schema.(*j5schema.ArrayField)`), among the
+properties it is given: `buildListRequest` ranges over `responseObj.Properties` — the response's own
+properties, a flattened object field counting as one object property — exactly like the compiler's
+`checkListMethod` (`method.Response.Properties`); neither looks at `ClientProperties()` -/
 def arrayElems : List Prop' → List Field
   | [] => []
   | p :: ps =>
